@@ -150,6 +150,35 @@ def restoreOrder (index : List Nat) (a : List β) : List β := gather (argsortNa
 
 end
 
+/-! ### from the sampled space to the model: `Optimizer.update_model` hands every fitted parameter the value
+     `priors.prior(value)` — the map its OWN prior object defines (`taurex/optimizer/optimizer.py:update_model`, called by
+     `generate_solution` at the MAP and the median and by `compute_derived_trace` at every sample) -/
+
+section
+variable {α : Type} [Add α] [Mul α] [Transc α]
+
+/-- what `Prior.prior(value)` of a fitted parameter's prior object does: the built-in classes return `value` (linear
+    classes) or `10 ** value` (`Log…` classes); a user-defined `Prior` subclass overrides the method — here a parameter
+    sampled in natural-log space (`exp(value)`) and one sampled in scaled / shifted units (`a * value + b`) -/
+inductive Back (α : Type) where
+  | identity
+  | pow10
+  | expNat
+  | affine (a b : α)
+  deriving Repr
+
+def Back.apply : Back α → α → α
+  | .identity, x => x
+  | .pow10, x => Transc.pow10 x
+  | .expNat, x => Transc.exp x
+  | .affine a b, x => a * x + b
+
+/-- the loop of `update_model`: `fset(priors.prior(value))` over `zip(fit_params, fitting_parameters, fitting_priors)` —
+    the vector of model values a sampled vector `v` stands for -/
+def modelPoint (bs : List (Back α)) (v : List α) : List α := List.zipWith Back.apply bs v
+
+end
+
 /-! ### the chains files MultiNest / PolyChord leave behind (what `store_nest_solutions` / `store_polychord_solutions`
      read back before they summarise): `<base>.txt` / `1-.txt` / `clusters/1-_k.txt` are tables whose rows are
      `weight, -2 logL, parameter values…`; `<base>post_separate.dat` lists the samples mode by mode -/
